@@ -227,6 +227,15 @@ func (c *rapidContext) watchEvents(events <-chan supvmodel.Event) {
 		}
 		termination := event.Event.ProcessTerminated()
 
+		// A process of an earlier generation that outlived its reset is not a fault of the current generation.
+		if !strings.HasSuffix(*termination.Name, fmt.Sprintf("-%d", c.runtimeDomainGeneration)) {
+			log.Warnf("Process %s of an earlier generation exited: %+v", *termination.Name, termination)
+			if _, found := c.shutdownContext.getExitedChannel(*termination.Name); found {
+				c.shutdownContext.handleProcessExit(*termination)
+			}
+			continue
+		}
+
 		// If we are not shutting down then we care if an unexpected exit happens.
 		if !c.shutdownContext.isShuttingDown() {
 			runtimeProcessName := fmt.Sprintf("%s-%d", runtimeProcessName, c.runtimeDomainGeneration)
